@@ -92,58 +92,48 @@ theorem getData_no_panic (src : Source) (rest s : String) : getData src rest ≠
   cases classify rest with
   | tile z x y =>
     simp only
-    cases addressed src.flipY z x y with
+    cases addressed src.flipY src.swapXY z x y with
     | none => simp
     | some c =>
-      obtain ⟨z', x', y'⟩ := c
       simp only
-      cases src.lookup z' x' y' <;> simp
+      cases src.lookup c.1 c.2.1 c.2.2 <;> simp
   | bad => simp
   | json => simp
   | other => simp
 
 /-- what `get_data` finds, spelled out: a tile request that parses, lies inside its level and is
-    held by the source (after `--flip-y`), or one of the two metadata names -/
+    held by the source (after `--swap-xy` / `--flip-y`), or one of the two metadata names -/
 theorem getData_some_iff (src : Source) (rest : String) (r : SrcResp) :
     getData src rest = .ok (some r) ↔
       (classify rest = .json ∧ r = { blob := src.tilejson, comp := .raw, mime := "application/json" }) ∨
-      (∃ z x y y' b, classify rest = .tile z x y ∧ addressed src.flipY z x y = some (z, x, y') ∧
-          src.lookup z x y' = some b ∧ r = { blob := b, comp := src.comp, mime := src.mime }) := by
+      (∃ z x y c b, classify rest = .tile z x y ∧ addressed src.flipY src.swapXY z x y = some c ∧
+          src.lookup c.1 c.2.1 c.2.2 = some b ∧ r = { blob := b, comp := src.comp, mime := src.mime }) := by
   unfold getData
   cases hc : classify rest with
   | tile z x y =>
     simp only [reduceCtorEq, false_and, false_or, PathKind.tile.injEq]
-    cases ha : addressed src.flipY z x y with
+    cases ha : addressed src.flipY src.swapXY z x y with
     | none =>
       simp only [reduceCtorEq, Res.ok.injEq, false_iff, not_exists, not_and]
-      intro z1 x1 y1 y' b h; obtain ⟨rfl, rfl, rfl⟩ := h
+      intro z1 x1 y1 c b h; obtain ⟨rfl, rfl, rfl⟩ := h
       rw [ha]; simp
     | some c =>
-      obtain ⟨z', x', y''⟩ := c
-      have hzx : z' = z ∧ x' = x := by
-        unfold addressed at ha
-        split at ha
-        · cases ha
-        · simp only [Option.some.injEq, Prod.mk.injEq] at ha; exact ⟨ha.1.symm, ha.2.1.symm⟩
-      obtain ⟨rfl, rfl⟩ := hzx
       simp only
-      cases hl : src.lookup z' x' y'' with
+      cases hl : src.lookup c.1 c.2.1 c.2.2 with
       | none =>
         simp only [Res.ok.injEq, reduceCtorEq, false_iff, not_exists, not_and]
-        intro z1 x1 y1 y' b h; obtain ⟨rfl, rfl, rfl⟩ := h
+        intro z1 x1 y1 c1 b h; obtain ⟨rfl, rfl, rfl⟩ := h
         rw [ha]
         intro h2
-        simp only [Option.some.injEq, Prod.mk.injEq, true_and] at h2
-        subst h2
+        cases h2
         rw [hl]; simp
       | some b =>
         simp only [Res.ok.injEq, Option.some.injEq]
         constructor
-        · intro h; exact ⟨z', x', y, y'', b, ⟨rfl, rfl, rfl⟩, ha, hl, h.symm⟩
-        · rintro ⟨z1, x1, y1, y', b1, ⟨rfl, rfl, rfl⟩, h2, h3, rfl⟩
+        · intro h; exact ⟨z, x, y, c, b, ⟨rfl, rfl, rfl⟩, ha, hl, h.symm⟩
+        · rintro ⟨z1, x1, y1, c1, b1, ⟨rfl, rfl, rfl⟩, h2, h3, rfl⟩
           rw [ha] at h2
-          simp only [Option.some.injEq, Prod.mk.injEq, true_and] at h2
-          subst h2
+          cases h2
           rw [hl] at h3
           cases h3; rfl
   | bad => simp
@@ -156,9 +146,9 @@ theorem getData_some_iff (src : Source) (rest : String) (r : SrcResp) :
 /-- the blob handed to `ok_data` is decodable -/
 theorem getData_valid (K : Codec) (src : Source) (hv : StoredValid K src) (rest : String) (r : SrcResp)
     (h : getData src rest = .ok (some r)) : ∃ p, K.dec r.comp r.blob = some p := by
-  rcases (getData_some_iff src rest r).mp h with ⟨_, rfl⟩ | ⟨z, x, y, y', b, _, _, hl, rfl⟩
+  rcases (getData_some_iff src rest r).mp h with ⟨_, rfl⟩ | ⟨z, x, y, c, b, _, _, hl, rfl⟩
   · exact ⟨_, K.dec_raw _⟩
-  · exact hv z x y' b hl
+  · exact hv _ _ _ b hl
 
 /-- **no dropped connection**: with valid stored tiles the handler always produces a response -/
 theorem serve_no_panic (K : Codec) (src : Source) (hv : StoredValid K src) (req : Request) :
@@ -213,12 +203,11 @@ theorem status_400_iff (K : Codec) (src : Source) (req : Request) :
     cases hc : classify req.rest with
     | tile z x y =>
       simp only
-      cases addressed src.flipY z x y with
+      cases addressed src.flipY src.swapXY z x y with
       | none => simp [Resp.status]
       | some c =>
-        obtain ⟨z', x', y'⟩ := c
         simp only
-        cases src.lookup z' x' y' with
+        cases src.lookup c.1 c.2.1 c.2.2 with
         | none => simp [Resp.status]
         | some b =>
           simp only [okData]
@@ -282,15 +271,16 @@ theorem response_sound (K : Codec) (src : Source) (req : Request) (ct : String) 
 theorem tile_response (K : Codec) (src : Source) (req : Request) (z x y : Nat)
     (hc : classify req.rest = .tile z x y) (ct : String) (ce : Option String) (c : Comp) (body : Bytes)
     (h : serveTile K src req = .ok ct ce c body) :
-    ∃ y' stored, addressed src.flipY z x y = some (z, x, y') ∧ src.lookup z x y' = some stored ∧
+    ∃ a stored, addressed src.flipY src.swapXY z x y = some a ∧
+      src.lookup a.1 a.2.1 a.2.2 = some stored ∧
       ct = src.mime ∧ ce = encToken c ∧ K.dec c body = K.dec src.comp stored := by
   obtain ⟨r, hg, h1, h2, h3, _⟩ := response_sound K src req ct ce c body h
-  rcases (getData_some_iff src _ r).mp hg with ⟨hj, _⟩ | ⟨z1, x1, y1, y', b, hc', ha, hl, rfl⟩
+  rcases (getData_some_iff src _ r).mp hg with ⟨hj, _⟩ | ⟨z1, x1, y1, a, b, hc', ha, hl, rfl⟩
   · rw [hc] at hj; cases hj
   · rw [hc] at hc'
     simp only [PathKind.tile.injEq] at hc'
     obtain ⟨rfl, rfl, rfl⟩ := hc'
-    exact ⟨y', b, ha, hl, h1, h2, h3⟩
+    exact ⟨a, b, ha, hl, h1, h2, h3⟩
 
 /-- **a Content-Encoding token is emitted only if that token occurs in the Accept-Encoding value** -/
 theorem encoding_listed (K : Codec) (src : Source) (req : Request) (ct tok : String) (c : Comp)
@@ -416,8 +406,24 @@ example : classifyParts ["+1", "01", "0abc", "x"] = .tile 1 1 0 := by decide
 example : classifyParts ["1", "0", ".png"] = .bad := by decide
 example : classifyParts [] = .other := by decide
 example : classifyParts ["tiles.json"] = .json := by decide
-example : addressed false 1 0 2 = none := by decide
-example : addressed true 3 7 0 = some (3, 7, 7) := by decide
+example : addressed false false 1 0 2 = none := by decide
+example : addressed true false 3 7 0 = some (3, 7, 7) := by decide
+example : addressed false true 3 7 0 = some (3, 0, 7) := by decide
+example : addressed true true 3 6 1 = some (3, 1, 1) := by decide
+
+/-- the transformation the server applies to a request is the inverse of "flip, then swap" (what the
+    converter applies to the source's coordinates): a stored tile `(x, y)` is served at
+    `T (x, y)` and a request for `T (x, y)` addresses `(x, y)` again -/
+theorem addressed_inverse (flipY swapXY : Bool) (z x y : Nat) (hx : x < 2 ^ z) (hy : y < 2 ^ z) :
+    let yf := if flipY then 2 ^ z - 1 - y else y
+    let sx := if swapXY then yf else x
+    let sy := if swapXY then x else yf
+    addressed flipY swapXY z sx sy = some (z, x, y) := by
+  cases flipY <;> cases swapXY <;> simp [addressed] <;> omega
+
+/-- the override decides what the server assumes, whatever the container declares -/
+theorem effectiveComp_override (d o : Comp) : effectiveComp d (some o) = o := rfl
+theorem effectiveComp_none (d : Comp) : effectiveComp d none = d := rfl
 /-- a well-formed header exists and the token theorem's hypothesis is satisfiable -/
 example : (∀ r ∈ runs isSep ['g', 'z', 'i', 'p', ',', ' ', 'B', 'R', ';', 'q', '=', '0', '.', '5'],
       r.map Char.toLower ∈ alphabet) ∧
